@@ -284,6 +284,24 @@ func (s *SwapStateMachine) Recover() (bool, error) {
 		return false, fmt.Errorf("unknown state: %s for swap %s", s.Current, s.SwapId.String())
 	}
 
+	if s.Current == Default {
+		// The process stopped after the swap was stored for the first time but
+		// before its first transition. Nothing has been sent, paid or broadcast
+		// yet, so the swap is cancelled instead of staying active forever.
+		s.mutex.Lock()
+		defer s.mutex.Unlock()
+		s.Previous = s.Current
+		s.setState(State_SwapCanceled)
+		s.Data.SetState(State_SwapCanceled)
+		if s.Data.CancelMessage == "" {
+			s.Data.CancelMessage = "swap was interrupted before it started"
+		}
+		if err := s.swapServices.swapStore.UpdateData(s); err != nil {
+			return false, err
+		}
+		return true, nil
+	}
+
 	if !ok || state.Action == nil {
 		// configuration error
 		return false, ErrFsmConfig
